@@ -550,7 +550,7 @@ pub fn self_test() {
 
 pub fn run(ctx: &Ctx) {
     self_test();
-    ctx.rule("value x format: values = exact rounding boundaries for every digit count 0..9 (k/10^d + half a unit, +-1 ulp), group boundaries (999, 1000, 1e6, 1e15, 1e21, 1e22), values below one unit of the last digit, negatives, random mantissas with decimal exponents; format = digits 0..9 x zero-fraction removal x rounding on/off x 11 separator pairs (also separators of several characters); kinds: number and percent (exact atom injection), money for all 161 configured currencies (digit count, symbol, side, spacing from config.json), unit quantities (69 spellings); oracle = independent formatter on the exact decimal expansion of the double ({:.1100}), an exact tie accepts either neighbour, a negative value rounding to zero accepts -0 or 0; non-trivial = value is fractional, has >= 4 integer digits or is negative, AND the format differs from the default or the value lies on a rounding boundary");
+    ctx.rule("value x format: values = exact rounding boundaries for every digit count 0..9 (k/10^d + half a unit, +-1 ulp), group boundaries (999, 1000, 1e6, 1e15, 1e21, 1e22), values below one unit of the last digit, negatives, random mantissas with decimal exponents; format = digits 0..9 x zero-fraction removal x rounding on/off x 11 separator pairs (also separators of several characters); kinds: number and percent (exact atom injection), money for all 161 configured currencies (digit count, symbol, side, spacing from config.json), unit quantities (69 spellings); unit families registered with any subset of the three per-unit options (the others take the built-in units' values); computed results: the lines of every other generator under random number formats - every number, percentage, money and unit result is printed by the rule applied to the value the AST reports (a digit-by-digit number only on lines about unix timestamps); oracle = independent formatter on the exact decimal expansion of the double ({:.1100}), an exact tie accepts either neighbour, a negative value rounding to zero accepts -0 or 0; non-trivial = value is fractional, has >= 4 integer digits or is negative, AND the format differs from the default or the value lies on a rounding boundary");
     ctx.assume("digit counts >= 10, infinities and NaN are outside the statement (C01 covers them for panics)");
     ctx.run_table(&Print, "boundary-table", table(), true);
     ctx.run_generated(&Print, ctx.tier.pick(150_000, 3_000_000), case_strategy);
